@@ -4,6 +4,7 @@ import OpenHTF.Driver.C13
 import OpenHTF.Driver.C07
 import OpenHTF.Driver.Exec
 import OpenHTF.Driver.C05
+import OpenHTF.Driver.C02
 open OpenHTF.Driver
 
 def stripNl (s : String) : String :=
@@ -17,6 +18,8 @@ def dispatch (line : String) : String :=
   | "C07" :: ts => C07.handle ts
   | "EX" :: ts => ExecIO.handleEX ts
   | "C05" :: ts => C05.handle ts
+  | "C02" :: ts => C02.handle ts
+  | "C03" :: ts => C02.handleC03 ts
   | _ => reply false false "unknown-property"
 
 partial def loop (i o : IO.FS.Stream) (acc : Array String) (n : Nat) : IO Unit := do
